@@ -76,7 +76,7 @@ pub struct RawStruct {
 }
 
 pub fn raw_struct_strategy() -> impl Strategy<Value = RawStruct> {
-    let field = (0u8..7, 0u8..5, 0u8..3, 0u8..8, 1u8..=12, 0u8..6, any::<u16>(), 0u8..4, any::<bool>(), any::<u16>(), 0u8..6)
+    let field = (0u8..7, 0u8..5, 0u8..3, 0u8..8, 1u8..=12, 0u8..6, any::<u16>(), 0u8..4, any::<bool>(), any::<u16>(), 0u8..24)
         .prop_map(|(kind, int_ty, int_enc, len, fixed_n, card, tag_sel, tag_form, tlv_attr, nest_sel, order)| RawField { kind, int_ty, int_enc, len, fixed_n, card, tag_sel, tag_form, tlv_attr, nest_sel, order });
     (proptest::option::weighted(0.35, (any::<u8>(), any::<u8>())), 0u8..=5, proptest::collection::vec(field, 1..=8)).prop_map(|(cmd, npos, fields)| RawStruct { cmd, npos, fields })
 }
@@ -261,6 +261,11 @@ fn permute(mut parts: Vec<String>, order: u8) -> Vec<String> {
     parts
 }
 
+/// how a container type is written: 0, 1 = `Option<T>` / `Vec<T>`, 2 = `std::` path, 3 = path with leading `::`
+fn spelling(f: &FieldDef) -> u8 {
+    if f.card == CardK::One { 0 } else { (f.order / 6) % 4 }
+}
+
 pub fn struct_name(i: usize) -> String {
     format!("S{i}")
 }
@@ -280,8 +285,18 @@ pub fn rust_source(i: usize, d: &StructDef) -> String {
         };
         let ty = match f.card {
             CardK::One => base,
-            CardK::Opt => format!("Option<{base}>"),
-            CardK::Vec => format!("Vec<{base}>"),
+            // a quarter each of the container types is spelled with a path (`std::..`, `::core::..`): the same type, so the
+            // same layout
+            CardK::Opt => match spelling(f) {
+                2 => format!("std::option::Option<{base}>"),
+                3 => format!("::core::option::Option<{base}>"),
+                _ => format!("Option<{base}>"),
+            },
+            CardK::Vec => match spelling(f) {
+                2 => format!("std::vec::Vec<{base}>"),
+                3 => format!("::std::vec::Vec<{base}>"),
+                _ => format!("Vec<{base}>"),
+            },
         };
         let mut parts: Vec<String> = vec![];
         if f.tlv_attr {
@@ -359,8 +374,8 @@ pub fn shape_of(d: &StructDef) -> String {
                 "{}{}{}:{}:{}",
                 match f.card {
                     CardK::One => "",
-                    CardK::Opt => "?",
-                    CardK::Vec => "*",
+                    CardK::Opt => if spelling(f) >= 2 { "?q" } else { "?" },
+                    CardK::Vec => if spelling(f) >= 2 { "*q" } else { "*" },
                 },
                 if f.tag.is_some() { "T" } else { "P" },
                 if f.tlv_attr { "t" } else { "" },
@@ -430,7 +445,7 @@ fn scalar_field(e: &mut Entropy, tag: Option<u16>, card: CardK) -> FieldDef {
         _ => (Ty::Int("u8", 8), EncK::Default, LenK::Empty),
     };
     let tlv_attr = tag.is_some() && len == LenK::Tlv && e.below(2) == 0;
-    FieldDef { card, tag, tlv_attr, ty, len, enc, order: e.below(6) as u8 }
+    FieldDef { card, tag, tlv_attr, ty, len, enc, order: e.below(24) as u8 }
 }
 fn fresh_tag(e: &mut Entropy, used: &mut Vec<u16>) -> u16 {
     // every third tag is a look-alike of one already in use: the same low byte in another tag family (one byte, 1fXX, ffXX)
@@ -489,7 +504,7 @@ fn directed_family(e: &mut Entropy, defs: &mut Vec<StructDef>) {
     fields.rotate_left(rot);
     defs.push(StructDef { ctrl: None, fields, depth: 0, self_delimiting: false });
     let inner = defs.len() - 1;
-    let open = |e: &mut Entropy, card: CardK| FieldDef { card, tag: None, tlv_attr: false, ty: Ty::Struct(inner), len: LenK::Empty, enc: EncK::Default, order: e.below(6) as u8 };
+    let open = |e: &mut Entropy, card: CardK| FieldDef { card, tag: None, tlv_attr: false, ty: Ty::Struct(inner), len: LenK::Empty, enc: EncK::Default, order: e.below(24) as u8 };
     let positional = |e: &mut Entropy| -> Vec<FieldDef> { (0..e.below(3)).map(|_| scalar_field(e, None, CardK::One)).collect() };
     // Tail
     let mut f = positional(e);
@@ -516,7 +531,7 @@ fn directed_family(e: &mut Entropy, defs: &mut Vec<StructDef>) {
     if defs[which].ctrl.is_none() {
         let t = fresh_tag(e, &mut used);
         let tagged = e.below(2) == 0;
-        f.push(FieldDef { card: CardK::Opt, tag: if tagged { Some(t) } else { None }, tlv_attr: false, ty: Ty::Struct(which), len: if e.below(2) == 0 { LenK::Tlv } else { LenK::Lllv }, enc: EncK::Default, order: e.below(6) as u8 });
+        f.push(FieldDef { card: CardK::Opt, tag: if tagged { Some(t) } else { None }, tlv_attr: false, ty: Ty::Struct(which), len: if e.below(2) == 0 { LenK::Tlv } else { LenK::Lllv }, enc: EncK::Default, order: e.below(24) as u8 });
         if tagged {
             let t2 = fresh_tag(e, &mut used);
             f.push(scalar_field(e, Some(t2), CardK::Opt));
@@ -529,7 +544,7 @@ fn directed_family(e: &mut Entropy, defs: &mut Vec<StructDef>) {
     defs.push(StructDef { ctrl: None, fields: g, depth: 0, self_delimiting: true });
     let group = defs.len() - 1;
     let mut f = (0..e.below(2)).map(|_| scalar_field(e, None, CardK::One)).collect::<Vec<_>>();
-    f.push(FieldDef { card: CardK::One, tag: None, tlv_attr: false, ty: Ty::Struct(group), len: LenK::Empty, enc: EncK::Default, order: e.below(6) as u8 });
+    f.push(FieldDef { card: CardK::One, tag: None, tlv_attr: false, ty: Ty::Struct(group), len: LenK::Empty, enc: EncK::Default, order: e.below(24) as u8 });
     match e.below(4) {
         0 => {}
         1 => f.push(FieldDef { card: CardK::One, tag: None, tlv_attr: false, ty: Ty::Int("u8", 8), len: LenK::Empty, enc: EncK::Default, order: 0 }),
